@@ -39,7 +39,8 @@ def run_tlc(module, cfg_text=None, cfg_file=None, workers=None, timeout=600, sim
             open(cfgp, "w").write(cfg_text)
         else:
             cfgp = os.path.join(wd, cfg_file or (module + ".cfg"))
-        cmd = ["java", "-XX:+UseParallelGC", "-Xmx" + heap]
+        # (-Xss: recursive operators over a 127-segment window / 600-segment payload overflow the default thread stack now and then)
+        cmd = ["java", "-XX:+UseParallelGC", "-Xmx" + heap, "-Xss64m"]
         if dfs:
             cmd.append("-Dtlc2.tool.queue.IStateQueue=StateDeque")
         cmd += ["-cp", JAR, "tlc2.TLC", "-noGenerateSpecTE", "-metadir", os.path.join(wd, "states"),
@@ -81,7 +82,8 @@ def run_tlc(module, cfg_text=None, cfg_file=None, workers=None, timeout=600, sim
             "Model checking completed" in out or simulate is not None)
         res["ok"] = res["error_kind"] is None and (res["finished"] or timed_out)
         if res["error_kind"] in ("parse", "config", "tlc-bug", "eval"):
-            machinery_failure("TLC %s on %s:\n%s" % (res["error_kind"], module, out[-3000:]))
+            i = out.find("Error:")
+            machinery_failure("TLC %s on %s:\n%s\n...\n%s" % (res["error_kind"], module, out[max(0, i - 300):i + 1500], out[-1500:]))
         return res
     finally:
         if not keep:
